@@ -41,6 +41,14 @@ def rmin(n, ctx=0, side="L"):
         return "%s[%s]" % (rmin(n[1], P_POSTFIX, "L"), rmin(n[2], 0, "L"))
     if t == "call":
         return "f(%s)" % rmin(n[1], 0, "L")
+    if t == "ifx":
+        # an if / else-if / else expression is a primary expression: it needs no parentheses as an operand
+        txt = "if %s { %s }" % (rmin(n[1], 0, "L"), rmin(n[2], 0, "L"))
+        if n[3] is not None:
+            txt += " else if %s { %s }" % (rmin(n[3][0], 0, "L"), rmin(n[3][1], 0, "L"))
+        return txt + " else { %s }" % rmin(n[4], 0, "L")
+    if t == "matchx":
+        return "match %s { 1 => %s, _ => %s }" % (rmin(n[1], 0, "L"), rmin(n[2], 0, "L"), rmin(n[3], 0, "L"))
     if t == "assign":
         s = "%s = %s" % (n[1], rmin(n[2], P_ASSIGN, "R"))
         # '=' is right associative: as the right operand of another '=' it needs no parentheses
@@ -61,6 +69,13 @@ def rfull(n):
         return "(%s[%s])" % (rfull(n[1]), rfull(n[2]))
     if t == "call":
         return "(f(%s))" % rfull(n[1])
+    if t == "ifx":
+        txt = "(if %s { %s }" % (rfull(n[1]), rfull(n[2]))
+        if n[3] is not None:
+            txt += " else if %s { %s }" % (rfull(n[3][0]), rfull(n[3][1]))
+        return txt + " else { %s })" % rfull(n[4])
+    if t == "matchx":
+        return "(match %s { 1 => %s, _ => %s })" % (rfull(n[1]), rfull(n[2]), rfull(n[3]))
     if t == "assign":
         return "(%s = %s)" % (n[1], rfull(n[2]))
     raise ValueError(t)
@@ -105,6 +120,15 @@ def ev(n, env):
         if isinstance(v, Alt):
             raise Unspecified("alt")
         return v
+    if t == "ifx":
+        if not falsey(ev(n[1], env)):
+            return ev(n[2], env)
+        if n[3] is not None and not falsey(ev(n[3][0], env)):
+            return ev(n[3][1], env)
+        return ev(n[4], env)
+    if t == "matchx":
+        sv = ev(n[1], env)
+        return ev(n[2], env) if (kind(sv) in ("int", "float") and sv == 1) else ev(n[3], env)
     if t == "assign":
         v = ev(n[2], env)
         env[n[1]] = v
@@ -171,6 +195,28 @@ def run(chk):
         trees.append(("index", Leaf("arr"), ("un", u, Leaf(0))))
         trees.append(("assign", "c", ("un", u, Leaf(4))))
         trees.append(("un", u, ("assign", "c", Leaf(4))))
+    # if / else-if chains and match expressions as operands, index targets and operands of prefix operators
+    for cond1 in (Leaf(1), Leaf(0)):
+        for cond2 in (Leaf(1), Leaf(0)):
+            chain = ("ifx", cond1, Leaf(10), (cond2, Leaf(20)), Leaf(30))
+            plain = ("ifx", cond1, Leaf(10), None, Leaf(30))
+            achain = ("ifx", cond1, Leaf("arr"), (cond2, Leaf("arr")), Leaf("arr"))
+            for o in BINOPS:
+                for ifx in (chain, plain):
+                    trees.append(("bin", o, ifx, Leaf(3)))
+                    trees.append(("bin", o, Leaf(3), ifx))
+                    trees.append(("bin", o, ifx, ifx))
+            trees.append(("index", achain, Leaf(1)))
+            trees.append(("index", Leaf("arr"), ("ifx", cond1, Leaf(1), (cond2, Leaf(2)), Leaf(3))))
+            for u in UNOPS:
+                trees.append(("un", u, chain))
+            trees.append(("call", chain))
+            trees.append(("assign", "c", ("bin", "+", chain, Leaf(100))))
+    for sv in (1, 2):
+        mx = ("matchx", Leaf(sv), Leaf(10), Leaf(20))
+        for o in BINOPS:
+            trees.append(("bin", o, mx, Leaf(3)))
+            trees.append(("bin", o, Leaf(3), mx))
     trees.append(("assign", "c", ("assign", "d", Leaf(9))))
     trees.append(("index", ("index", Leaf("arr"), Leaf(0)), Leaf(0)))
     if not quick:
@@ -237,6 +283,10 @@ def run(chk):
                 return "(%s %s)" % (n[1], " ".join(shape(x) for x in n[2:]))
             if n[0] == "assign":
                 return "(= %s)" % shape(n[2])
+            if n[0] == "ifx":
+                return "(%s)" % ("if-chain" if n[3] is not None else "if-else")
+            if n[0] == "matchx":
+                return "(match)"
             return "(%s %s)" % (n[0], " ".join(shape(x) for x in n[1:]))
         sh = shape(t) + ("" if ctx_of[i] == 0 else " in " + CONTEXTS[ctx_of[i]].replace("%s", "_"))
         chk.observed(sh)
